@@ -77,6 +77,20 @@ def make_diff(rng, enc, kind, damaged, long_first=0):
             rng.chance(0.5) else 'p/'
         lines.insert(0, 'Index: ' + unit * long_first)
 
+    if not damaged and not long_first and kind == 'unix' and \
+       rng.chance(0.1):
+        # an LF diff of a CRLF file: the lines of the file (hunk body) end
+        # in CR, the diff's own header lines do not - first and last line
+        # disagree, the first line decides
+        lines = [l + '\r' if l[:1] in ('+', '-', ' ') and
+                 l[:3] not in ('+++', '---') else l for l in lines]
+
+    if not damaged and enc in ('utf-16', 'utf-16-le') and kind == 'dos' \
+       and rng.chance(0.15) and lines:
+        # characters whose code units, side by side, contain the bytes of
+        # an encoded LF (0A 00) off alignment, in the very first line
+        lines[0] = lines[0] + ' \u0a05\u0100'
+
     text = nl.join(lines) + nl
 
     if not damaged and rng.chance(0.15) and len(lines) > 1:
@@ -294,7 +308,14 @@ def file_class(fs):
         raise Corner()
 
     if kind == 'unix' and '\r\n' in text:
-        raise Corner()
+        # an LF diff whose lines carry a CR: fine as long as the CRs belong
+        # to the lines of the *file* (hunk body); a CR at the end of one of
+        # the diff's own lines (file headers, hunk headers, "\ No newline")
+        # is the contradiction this check stays out of
+        if any(l.endswith('\r') and (l[:3] in ('---', '+++') or
+                                     l[:1] not in ('+', '-', ' '))
+               for l in text.split('\n')):
+            raise Corner()
     lines = text.split(nl)
 
     if text.endswith(nl):
